@@ -503,7 +503,7 @@ func c03OneList(h *c03Impl, cs []c03Con, atoms []c03Atom, withResid bool, focus 
 	if cl == "atom" {
 		ans = "atom " + det
 	}
-	res.ops = append(res.ops, c03Out{"O", "", "eval " + proto, ans})
+	res.ops = append(res.ops, c03Out{"O", tag, "eval " + proto, ans})
 	if withResid && !focus {
 		// correspondence of the full result (bottom detection and residual are order dependent:
 		// the evaluator inserts conjuncts that are values at compile time first, then the
@@ -542,13 +542,19 @@ func c03OneList(h *c03Impl, cs []c03Con, atoms []c03Atom, withResid bool, focus 
 	if len(atoms) > 0 {
 		al := strings.Join(protos, ";")
 		// against the proved model
-		res.ops = append(res.ops, c03Out{"O", "", "acceptv " + proto + " " + al, av.String()})
+		// (in the known defect region the model's verdict depends on the insertion order, so the
+		// comparison is class-tagged there as well)
+		res.ops = append(res.ops, c03Out{"O", tag, "acceptv " + proto + " " + al, av.String()})
 		// against the specification itself (class-tagged in the known defect region)
 		res.ops = append(res.ops, c03Out{"O", tag, "satv " + proto + " " + al, sv.String()})
 	}
 	// a bottom conjunction must not accept any atom
 	if cl == "bottom" {
-		res.dirs = append(res.dirs, c03Direct{anyAccepted == "", "bottom-but-accepts",
+		dcl := "bottom-but-accepts"
+		if big {
+			dcl = c03Tag
+		}
+		res.dirs = append(res.dirs, c03Direct{anyAccepted == "", dcl,
 			fmt.Sprintf("%s is bottom but %s & %s is accepted", src, src, anyAccepted), src})
 	}
 	return res
@@ -607,13 +613,17 @@ func c03PermCase(h *c03Impl, cs []c03Con, a c03Atom) c03Result {
 		if pi == 0 {
 			base = got
 		}
-		res.ops = append(res.ops, c03Out{"O", "", "accept " + c03Proto(pc) + " " + a.proto, got})
+		res.ops = append(res.ops, c03Out{"O", tag, "accept " + c03Proto(pc) + " " + a.proto, got})
 		sp := got
 		if strings.HasPrefix(sp, "other") {
 			sp = "other"
 		}
 		res.ops = append(res.ops, c03Out{"O", tag, "sat " + c03Proto(pc) + " " + a.proto, sp})
-		res.dirs = append(res.dirs, c03Direct{got == base, "order-dependent-accept",
+		dcl := "order-dependent-accept"
+		if big {
+			dcl = c03Tag
+		}
+		res.dirs = append(res.dirs, c03Direct{got == base, dcl,
 			fmt.Sprintf("%s gives %s but %s gives %s", c03Src(all), base, c03Src(pc), got), c03Src(pc)})
 	}
 	res.canon = "perm " + c03Proto(all)
